@@ -78,5 +78,14 @@ func TemplateFromCert(ctx context.Context, cert *x509.Certificate, pubKey any) (
 	template.Subject.SerialNumber = subjectSerial.String()
 	template.NotBefore = timestamp
 	template.NotAfter = timestamp.Add(time.Duration(styp.SignValidDays) * 24 * time.Hour)
+	if cert.IsCA {
+		// A re-templated root keeps the root lifetime, not the signing key's.
+		template.NotAfter = timestamp.Add(time.Duration(styp.RootValidDays) * 24 * time.Hour)
+	}
+	// The certificate serial number follows the subject's, as in the Google template; the copied
+	// value is the serial of the certificate the template was cloned from.
+	if subjectSerial != nil {
+		template.SerialNumber = new(big.Int).Set(subjectSerial)
+	}
 	return &template, nil
 }
